@@ -117,7 +117,7 @@ fn main() {
                 (if thorough { families::f2() } else { families::f2k(&families::KINDS8, "RCDErcde") }, true),
                 (families::fd(2, 2, families::all_anchors(2, 2), 3, "all 49 anchors"), true),
                 (if thorough { families::fplus(families::interior_squares(), 3, "every interior square") } else { families::fplus(vec![18, 35], 3, "trap c6, d4") }, thorough),
-                (if thorough { families::fs_variants(&verif_dir().join("seeds"), 1, 1) } else { families::fs_files(&verif_dir().join("seeds"), &["handmade.txt", "handmade2.txt"], 1) }, false),
+                (if thorough { families::fs_variants(&verif_dir().join("seeds"), 1, 1) } else { families::fs_files(&verif_dir().join("seeds"), &["handmade.txt"], 1) }, false),
             ];
             if thorough {
                 fams.push((families::f3w(None, &families::ALL_KINDS, "all 36 windows, all 12 kinds"), true));
